@@ -749,13 +749,9 @@ func (r *c11Repo) roleClass(role string) string {
 
 func (r *c11Repo) alphabet(level int) []c11Op {
 	roles := []string{"loose", "packA-base", "packA-delta", "packB-delta", "dup", "alt-packed", "absent"}
-	if level >= 1 {
-		roles = append(roles, "empty")
-	}
 	kinds := []int{c11GetAny, c11Size, c11Delta, c11Partial}
 	if level >= 1 {
-		roles = append(roles, "loose-tag", "loose-big", "alt-loose", "packA-commit", "loose-commit")
-		kinds = append(kinds, c11GetWrong, c11GetTyped, c11Has)
+		kinds = append(kinds, c11GetWrong, c11Has)
 	}
 	var ops []c11Op
 	for _, ro := range roles {
@@ -765,6 +761,14 @@ func (r *c11Repo) alphabet(level int) []c11Op {
 	}
 	if level == 0 {
 		ops = append(ops, c11Op{c11Has, "alt-packed"}, c11Op{c11Has, "absent"}, c11Op{c11GetWrong, "packA-base"}, c11Op{c11GetWrong, "loose"}, c11Op{c11GetTyped, "packA-delta"})
+	} else {
+		// thorough: the remaining roles with the three basic reads, typed reads of two roles
+		for _, ro := range []string{"empty", "loose-tag", "loose-big", "alt-loose", "packA-commit"} {
+			for _, k := range []int{c11GetAny, c11Size, c11Delta} {
+				ops = append(ops, c11Op{k, ro})
+			}
+		}
+		ops = append(ops, c11Op{c11GetTyped, "packA-delta"}, c11Op{c11GetTyped, "loose"}, c11Op{c11Has, "alt-loose"})
 	}
 	ops = append(ops, c11Op{c11Iter, "any"})
 	if level >= 1 {
@@ -772,7 +776,7 @@ func (r *c11Repo) alphabet(level int) []c11Op {
 	}
 	ops = append(ops, c11Op{c11Prefix, r.roles["packA-delta"][:2]}, c11Op{c11Prefix, r.roles["loose"][:4]})
 	if level >= 1 {
-		ops = append(ops, c11Op{c11Prefix, r.roles["absent"]}, c11Op{c11Prefix, r.roles["alt-packed"]}, c11Op{c11Prefix, ""})
+		ops = append(ops, c11Op{c11Prefix, r.roles["absent"]}, c11Op{c11Prefix, ""})
 	}
 	return ops
 }
@@ -884,6 +888,12 @@ func runC11(c *fw.Ctx) {
 		for _, k := range cfgs {
 			if !c.Thorough() && r.of == "sha256" && (k.Excl || k.Mmap || k.LOT != 0) {
 				continue // quick: sha256 runs the cache x pool x index product only
+			}
+			if c.Thorough() && k.HighMem && (k.Excl || k.Mmap) {
+				continue // HighMemoryMode (a write-side option) is combined with the index/threshold/cache/pool product only
+			}
+			if c.Thorough() && r.of == "sha256" && (k.Mmap || k.HighMem) {
+				continue // thorough: sha256 without the mmap and HighMemoryMode dimensions
 			}
 			if !c.Thorough() && k.Mmap && k.Excl {
 				continue // quick: mmap-backed files are not combined with ExclusiveAccess
